@@ -80,6 +80,16 @@ Definition run (inp : list Z) : list Z :=
             else eresult (elist eQ) (sample_grid QcF cH cC qleb (mkSpec QcF ws vs wu vu) wb)
           else emalformed
       | None => emalformed end
+    else if op =? 8 then
+      (* Spectrum.to as it leaves the object: the final (or partially converted) spectrum and the exception, if any *)
+      match pall (wu <- pwunit ;; vu <- popt pfunit ;; ws <- plist pQ ;; vs <- plist pQ ;; args <- plist puname ;;
+                  pret (wu, vu, ws, vs, args)) rest with
+      | Some (wu, vu, ws, vs, args) =>
+          if Nat.eqb (length ws) (length vs)
+          then let '(s1, o) := to_st QcF cH cC qleb (mkSpec QcF ws vs wu vu) args in
+               0 :: espec s1 ++ eopt (fun e => [errcode e]) o
+          else emalformed
+      | None => emalformed end
     else emalformed
   | _ => emalformed
   end.
